@@ -118,7 +118,7 @@ def run(rep, kf, tier, seed):
     engine_b.discharge(rep, kf, [rb.body_from_data_contract(), cfgc.get_content_type_contract(), cap.add_parameters_contract()],
                        "C03", tier, seed)
     from props.common import run_bounded
-    run_bounded(rep, kf, "C03", ["param_conflicts", "body_media"], tier)
+    run_bounded(rep, kf, "C03", ["param_conflicts", "body_media", "tag_filing"], tier)
     run_endpoints(rep, kf, tier, seed, "C03")
     # the httpx boundary (assumed in the contracts above), probed natively for each body kind: bounded, labelled
     import time as _time
